@@ -247,10 +247,17 @@ fn run_c37(ctx: &mut Ctx, rep: &mut Report) {
             let ms = if m >= 100 { rng.below(30) } else { rsync_delay + (m as u64 - 1) * (3 + rng.below(12)) };
             std::fs::write(d.join("repo"), ms.to_string()).unwrap();
         }
+        // Host names are case-insensitive: in a third of the rsync cases half of the CAs of module 1 spell its host with
+        // capitals (it is still one module, to be fetched once).
+        if i % 3 == 0 {
+            w.host_override.insert(50, "R1.Rpki.TEST".to_string());
+            let mut flip = false;
+            for c in w.cas.iter_mut() { if c.repo == 1 && c.parent.is_some() { if flip { c.repo = 50; } flip = !flip; } }
+        }
         // In a quarter of the rsync cases one shared module fails (rsync exits non-zero): it must still be tried only once,
         // however many CAs live in it.
         let failing_repo = if i % 3 != 2 && rng.chance(1, 4) { Some(1 + rng.usize(modules)) } else { None };
-        if let Some(fr) = failing_repo { for c in w.cas.iter_mut() { if c.repo == fr { c.unreachable = true; } } }
+        if let Some(fr) = failing_repo { for c in w.cas.iter_mut() { if c.repo == fr || (fr == 1 && c.repo == 50) { c.unreachable = true; } } }
         // Every third case publishes the shared repositories via RRDP instead (same oracle on the notification requests).
         let via_rrdp = i % 3 == 2;
         if via_rrdp { for c in w.cas.iter_mut() { if c.parent.is_some() { c.rrdp = true; } } }
@@ -282,7 +289,9 @@ fn run_c37(ctx: &mut Ctx, rep: &mut Report) {
         let log = env.rsync_log();
         let mut per_module: BTreeMap<String, Vec<(u128, u128)>> = BTreeMap::new();
         for l in &log {
+            // one module however its host is spelled
             let m = l["module"].as_str().unwrap_or("").to_string();
+            let m = match m.split_once('/') { Some((h, rest)) => format!("{}/{}", h.to_ascii_lowercase(), rest), None => m.to_ascii_lowercase() };
             per_module.entry(m).or_default().push((l["start"].as_u64().unwrap_or(0) as u128, l["end"].as_u64().unwrap_or(0) as u128));
         }
         if via_rrdp {
@@ -308,7 +317,7 @@ fn run_c37(ctx: &mut Ctx, rep: &mut Report) {
         for e in events.iter().filter(|e| e.name == "rsync.load_file") {
             let uri = e.detail.trim_start_matches("rsync://");
             let mut parts = uri.splitn(3, '/');
-            let module = format!("{}/{}", parts.next().unwrap_or(""), parts.next().unwrap_or(""));
+            let module = format!("{}/{}", parts.next().unwrap_or("").to_ascii_lowercase(), parts.next().unwrap_or(""));
             match per_module.get(&module) {
                 Some(v) => { let first_end = v.iter().map(|x| x.1).min().unwrap(); if e.mono < first_end { rep.violation("C37/read-before-fetch-finished", format!("{} was read {} ns before the fetch of {module} had finished", e.detail, first_end - e.mono), replay.clone()); } }
                 None => rep.violation("C37/read-without-fetch", format!("{} was read but module {module} was never fetched in this run", e.detail), replay.clone()),
